@@ -13,6 +13,7 @@ import (
 	"sync"
 	"time"
 	"unicode"
+	"unicode/utf8"
 
 	"golang.org/x/text/unicode/norm"
 	"golang.org/x/tools/go/ssa"
@@ -1013,6 +1014,24 @@ func (w *Worker) intrinsic(st *State, f *Frame, x ssa.Value, callee *ssa.Functio
 		}
 	case "unicode/utf8.RuneLen":
 		set(utf8LenTerm(args[0].(Term)))
+	case "unicode/utf8.EncodeRune":
+		rv, okr := args[1].(Term).intVal()
+		if !okr {
+			panic(engineErr("utf8.EncodeRune of a symbolic code point"))
+		}
+		var tmp [4]byte
+		k := utf8.EncodeRune(tmp[:], rune(rv))
+		sl := args[0].(SliceV)
+		if sl.n < k {
+			w.obligation(st, "utf8-EncodeRune-into-a-short-slice", token.NoPos, mkBool(true))
+			return true
+		}
+		arr := append(ArrayV{}, st.heap[sl.id].(ArrayV)...)
+		for i := 0; i < k; i++ {
+			arr[sl.off+i] = mkBV(uint64(tmp[i]), 8)
+		}
+		st.heap[sl.id] = arr
+		set(mkBV(uint64(k), 64))
 	case "unicode/utf8.RuneCountInString":
 		rs, ok := args[0].(StrV).runeLevel()
 		if !ok {
@@ -1402,6 +1421,14 @@ func (w *Worker) parseFloat(st *State, set func(Value), s StrV) {
 		plusD := mkAnd(is(rs[0], '+'), isD(rs[1]))
 		minusD := mkAnd(is(rs[0], '-'), isD(rs[1]))
 		st.assume(mkEq(failed, mkNot(mkOr(dd, dDot, dotD, plusD, minusD))))
+		st.assume(mkImplies(mkNot(failed), mkNot(Term{S: "(fp.isNaN " + val.S + ")", Sort: SBool, Syms: val.Syms})))
+		if st.opts["parsefloat-exact-integers"] {
+			d0 := bvBin("bvsub", bvResize(rs[0], 64, false), mkBV('0', 64), false)
+			d1 := bvBin("bvsub", bvResize(rs[1], 64, false), mkBV('0', 64), false)
+			acc := bvBin("bvadd", bvBin("bvadd", bvBin("bvshl", d0, mkBV(3, 64), false), bvBin("bvshl", d0, mkBV(1, 64), false), false), d1, false)
+			exact := Term{S: "((_ to_fp_unsigned 11 53) RNE " + acc.S + ")", Sort: SFP, Syms: acc.Syms}
+			st.assume(mkImplies(dd, mkEq(val, exact)))
+		}
 	default:
 		if n <= 120 {
 			all := make([]Term, n)
